@@ -19,9 +19,11 @@ import (
 	"math/rand"
 	"net"
 	"net/http"
+	"net/http/httptest"
 	"os"
 	"os/exec"
 	"path/filepath"
+	"sort"
 	"strings"
 	"sync"
 	"syscall"
@@ -359,6 +361,17 @@ func TestVerifC14(t *testing.T) {
 			if rng.Intn(6) == 0 {
 				body = append(body, 0xff, 0x00)
 			}
+			if rng.Intn(3) == 0 {
+				// unusual bytes inside the legacy offer: C0 controls, DEL, invalid UTF-8, astral and non-printable code points
+				odd := []string{"\x01", "\x07", "\x0b", "\x1b", "\x7f", "\x00", "\xff", "\xc3", "\u2028", "\U000e0001", "\U0001f600", "\\", "\"", "\r\n", "\t", "\u00a0"}
+				var sb strings.Builder
+				sb.WriteString(`{"type":"offer","sdp":"legacy`)
+				for k := 0; k < 1+rng.Intn(4); k++ {
+					sb.WriteString(odd[rng.Intn(len(odd))])
+				}
+				sb.WriteString(`"}`)
+				body = []byte(sb.String())
+			}
 			class = "legacy"
 		case x < 10:
 			body = nil
@@ -411,7 +424,10 @@ func TestVerifC14(t *testing.T) {
 			}
 			// oracle: legacy ≡ versioned under the status map
 			if legacy && !tooLarge && method == "POST" && argHex != "none" && !resp.dropped {
-				arg, _ := (&messages.ClientPollRequest{Offer: string(body), NAT: strings.TrimSpace(nat)}).EncodeClientPollRequest()
+				// the versioned equivalent, written by the harness's own encoder (not the repository's, which the legacy
+				// shim itself relies on): version line + JSON object with the whole legacy body as the offer
+				vj, _ := json.Marshal(map[string]string{"offer": string(body), "nat": strings.TrimSpace(nat), "fingerprint": ""})
+				arg := append([]byte("1.0\n"), vj...)
 				v := c14Do(addr, c14Raw("POST", "/client", nil, arg, true), "POST", 8*time.Second)
 				want := -1
 				var wantBody []byte
@@ -509,7 +525,7 @@ func TestVerifC14(t *testing.T) {
 		}})
 	}
 	rawOddities := [][]byte{
-		[]byte("POST /client HTTP/1.1\r\nHost: x\r\nContent-Length: 5\r\nConnection: close\r\n\r\nab"),               // short body then close
+		[]byte("POST /client HTTP/1.1\r\nHost: x\r\nContent-Length: 5\r\nConnection: close\r\n\r\nab"), // short body then close
 		[]byte("POST /client HTTP/1.1\r\nHost: x\r\nTransfer-Encoding: chunked\r\nConnection: close\r\n\r\n3\r\n1.0\r\n0\r\n\r\n"),
 		[]byte("POST /proxy HTTP/1.0\r\n\r\n"),
 		[]byte("GET /client HTTP/1.1\r\nHost: x\r\nConnection: close\r\nSnowflake-NAT-Type: a\r\nSnowflake-NAT-Type: b\r\n\r\n"),
@@ -611,6 +627,143 @@ func TestVerifC14(t *testing.T) {
 		idle, _ := messages.EncodePollResponse("", false, "")
 		flows[2] = flow{"idle-poll", p.canon(), "200 " + vh.Hex(idle)}
 	}()
+	// (e) a herd at the timeout boundary, on a broker process of its own: many polls started together idle
+	// into the proxy timeout while as many clients arrive within a few milliseconds of the timers; whatever the
+	// interleaving, every one of these requests gets a well-formed response within the protocol waits, and the
+	// broker keeps serving afterwards
+	herd := func(herdAddr string) {
+		defer fw.Done()
+		n := r.N(192, 512)
+		type hres struct {
+			kind string
+			i    int
+			resp c14Resp
+		}
+		out := make(chan hres, 2*n)
+		t0 := time.Now()
+		boundary := t0.Add(time.Duration(ProxyTimeout) * time.Second)
+		fire := make(chan struct{}) // closed when the first poll comes back: the timers have started to fire
+		var fireOnce sync.Once
+		for i := 0; i < n; i++ {
+			go func(i int) {
+				poll, _ := messages.EncodeProxyPollRequestWithRelayPrefix(fmt.Sprintf("herd-%d", i), "standalone", "unrestricted", i%3, "")
+				resp := c14Do(herdAddr, c14Raw("POST", "/proxy", nil, poll, true), "POST", long)
+				if offer, _, _, err := messages.DecodePollResponseWithRelayURL(resp.body); err == nil && offer == "" {
+					fireOnce.Do(func() { close(fire) }) // an idle answer: this poll's timer has fired
+				}
+				out <- hres{"poll", i, resp}
+			}(i)
+		}
+		for i := 0; i < n; i++ {
+			// the polls register within a few milliseconds of each other, so their timers fire within a few
+			// milliseconds after the nominal boundary: the clients arrive densely around it
+			go func(i int) {
+				time.Sleep(time.Until(boundary.Add(time.Duration(i%13-6) * 500 * time.Microsecond)))
+				vj, _ := json.Marshal(map[string]string{"offer": fmt.Sprintf("herd-offer-%d", i), "nat": "unknown", "fingerprint": ""})
+				out <- hres{"client", i, c14Do(herdAddr, c14Raw("POST", "/client", nil, append([]byte("1.0\n"), vj...), true), "POST", long)}
+			}(i)
+		}
+		bad, classes := 0, map[string]int{}
+		var pollLat []time.Duration
+		for k := 0; k < 2*n; k++ {
+			h := <-out
+			if h.kind == "poll" && !h.resp.dropped {
+				pollLat = append(pollLat, h.resp.elapsed)
+			}
+			cls := fmt.Sprintf("%s/%d", h.kind, h.resp.status)
+			if h.resp.dropped {
+				cls = h.kind + "/no-response"
+			}
+			classes[cls]++
+			if h.resp.dropped || h.resp.status != 200 {
+				bad++
+				if bad <= 1 {
+					r.OracleFail("request-unanswered-at-timeout-boundary", fmt.Sprintf("herd of %d polls idling into the proxy timeout and %d clients arriving within +-3 ms of it: %s %d", n, n, h.kind, h.i),
+						h.resp.canon()+" "+h.resp.err, "every HTTP request must receive a complete, well-formed response within the protocol waits, whatever the timing of polls, offers and timeouts")
+				}
+			}
+		}
+		for cls, k := range classes {
+			for j := 0; j < k; j++ {
+				r.Case("herd/"+cls, fmt.Sprintf("%s #%d", cls, j), true)
+			}
+		}
+		if len(pollLat) > 0 {
+			sort.Slice(pollLat, func(a, b int) bool { return pollLat[a] < pollLat[b] })
+			r.Note("timeout-boundary herd: poll response times min %v median %v max %v (n=%d)", pollLat[0], pollLat[len(pollLat)/2], pollLat[len(pollLat)-1], len(pollLat))
+		}
+		resp := c14Do(herdAddr, c14Raw("GET", "/debug", nil, nil, false), "GET", 5*time.Second)
+		if resp.dropped || resp.status != 200 {
+			r.OracleFail("server-not-serving-after-request", "after the timeout-boundary herd", resp.canon()+" "+resp.err, "the broker must keep handling later requests")
+		}
+	}
+	// (f) the same boundary forced deterministically on an in-process broker behind the real HTTP handlers: the
+	// harness holds the broker's matching lock across the poll's timeout instant with the client request queued on
+	// the lock first, so the client claims the proxy after the timer has fired and before the timeout branch runs
+	fw.Add(1)
+	go func() {
+		defer fw.Done()
+		fctx := NewBrokerContext(NullLogger())
+		go fctx.Broker()
+		fi := &IPC{fctx}
+		mux := http.NewServeMux()
+		mux.Handle("/proxy", SnowflakeHandler{fi, proxyPolls})
+		mux.Handle("/client", SnowflakeHandler{fi, clientOffers})
+		mux.Handle("/debug", SnowflakeHandler{fi, debugHandler})
+		srv := httptest.NewServer(mux)
+		faddr := strings.TrimPrefix(srv.URL, "http://")
+		t0 := time.Now()
+		boundary := t0.Add(time.Duration(ProxyTimeout) * time.Second)
+		pollC, clientC := make(chan c14Resp, 1), make(chan c14Resp, 1)
+		go func() {
+			poll, _ := messages.EncodeProxyPollRequestWithRelayPrefix("forced-1", "standalone", "unrestricted", 0, "")
+			pollC <- c14Do(faddr, c14Raw("POST", "/proxy", nil, poll, true), "POST", long)
+		}()
+		time.Sleep(time.Until(boundary.Add(-700 * time.Millisecond)))
+		fctx.snowflakeLock.Lock()
+		go func() {
+			vj, _ := json.Marshal(map[string]string{"offer": "forced-offer", "nat": "unknown", "fingerprint": ""})
+			clientC <- c14Do(faddr, c14Raw("POST", "/client", nil, append([]byte("1.0\n"), vj...), true), "POST", long)
+		}()
+		time.Sleep(time.Until(boundary.Add(400 * time.Millisecond)))
+		fctx.snowflakeLock.Unlock()
+		desc := "forced: poll idles into its timeout; the client request is queued on the matching lock 500 ms before the timer fires, the lock is released 400 ms after it"
+		got := ""
+		stuck := false
+		for _, x := range []struct {
+			name string
+			ch   chan c14Resp
+		}{{"poll", pollC}, {"client", clientC}} {
+			select {
+			case resp := <-x.ch:
+				got += fmt.Sprintf("%s=%d ", x.name, resp.status)
+				if resp.dropped {
+					stuck = true
+				}
+			case <-time.After(long):
+				got += x.name + "=no-response "
+				stuck = true
+			}
+		}
+		r.Case("flow/forced-client-claims-proxy-at-poll-timeout", desc+" -> "+got, true)
+		if stuck {
+			r.OracleFail("request-unanswered-at-timeout-boundary", desc, got,
+				"every HTTP request must receive a complete, well-formed response within the protocol waits, whatever the timing of polls, offers and timeouts")
+			return // the handlers are stuck: do not wait for them in srv.Close
+		}
+		resp := c14Do(faddr, c14Raw("GET", "/debug", nil, nil, false), "GET", 5*time.Second)
+		if resp.dropped || resp.status != 200 {
+			r.OracleFail("server-not-serving-after-request", desc, resp.canon()+" "+resp.err, "the broker must keep handling later requests")
+			return
+		}
+		srv.Close()
+	}()
+	for hk := 0; hk < r.N(1, 3); hk++ {
+		herdAddr, stopHerd := startBroker()
+		defer stopHerd()
+		fw.Add(1)
+		go herd(herdAddr)
+	}
 	wg.Wait()
 	fw.Wait()
 	for _, f := range flows {
